@@ -6,7 +6,8 @@ RULE = (
     "case = (generated grammar incl. useless-symbol / dead-start / empty-language templates, semiring); every "
     "normal-form call of the real library is followed by an independently written shape predicate on the returned rule "
     "list (CNF shapes, eps only at S, no unary rule / no unary cycle, arity <= 2, start off RHS, terminals only in A->a, "
-    "trim: every kept symbol reachable through kept rules and generating; empty language => no rules). evaluations = "
+    "trim: every kept symbol reachable through kept rules and generating; empty language => no rules); the library's own "
+    "predicates in_cnf() and has_unary_cycle() are compared with the independent ones on inputs and outputs. evaluations = "
     "(transformation call) decisions; non-trivial = grammar has eps/unary rules, useless symbols, long bodies or S on a RHS."
 )
 ASSUMPTIONS = ["shape predicates in rv/checks/xform.py:shape_violations are the postconditions stated by the property, nothing stricter"]
@@ -17,7 +18,7 @@ ANCHORS = [
     "genlm.grammar.cfg:CFG.separate_terminals",
 ]
 APIS = ["cfg.cnf", "cfg.nullaryremove", "cfg.unaryremove", "cfg.unarycycleremove", "cfg.binarize", "cfg.separate_start",
-        "cfg.separate_terminals", "cfg.trim"]
+        "cfg.separate_terminals", "cfg.trim", "cfg.has_unary_cycle"]
 
 
 def plan(tier, seed):
@@ -29,7 +30,8 @@ def gates(tier):
     return {
         "min_decided": {a: 300 * k for a in APIS},
         "shapes": {c: 5 * k for c in ["eps_rule", "nullable_cycle", "unary_cycle", "useless_symbol", "non_generating_symbol",
-                                      "unreachable_symbol", "empty_language", "start_on_rhs", "long_body", "names:int0", "names:tuple0"]},
+                                      "unreachable_symbol", "empty_language", "start_on_rhs", "long_body", "names:int0", "names:tuple0",
+                                      "has_unary_cycle:yes", "has_unary_cycle:no"]},
         "min_hashseeds": 2,
     }
 
